@@ -95,6 +95,19 @@ def fold_monitors(pid, v, trace, desc):
     return rej
 
 
+def hung_programs(trace):
+    """ids of the programs whose child was ended by the harness's alarm (Crash record with signal 14)"""
+    res, cur = [], -1
+    with open(trace) as f:
+        for line in f:
+            if line.startswith('{"e":"Prog"'):
+                m = re.search(r'"id":(\d+)', line)
+                cur = int(m.group(1)) if m else -1
+            elif line.startswith('{"e":"Crash","sig":14}'):
+                res.append(cur)
+    return res
+
+
 def every_nth_program(path, n):
     """a file with every n-th program of `path` (programs end with a line "end")"""
     outp = path + ".nth%d" % n
@@ -192,6 +205,13 @@ def kernel_part(pid, tier, replay, v):
             raise vlib.MachineryError("kernel_replay failed rc=%d: %s" % (rc, o[-2000:]))
         a, b, c = trace_stats(tp)
         nprog += a; nontriv += b; crashes += c
+        hung = hung_programs(tp)
+        if hung:
+            # a program of a few dozen events that is still inside one library call after a minute: no result of that call,
+            # hence nothing the property says about it, can be observed
+            txt = program_text(tp, hung[0])
+            rp = vlib.save_replay(pid, "hang_%s_%d.txt" % (vn, hung[0]), txt)
+            v.violation("%s|library-call-did-not-return" % pid, rp, "%s program %d (and %d more) on the %s build" % (desc, hung[0], len(hung) - 1, vn))
         for r in fold_monitors(pid, v, tp, "%s programs on %s build" % (desc, vn)):
             if r["prop"] != pid:
                 note = "other property %s:%s seen in %s program %d (reported by that property's check)" % (r["prop"], r["rule"], desc, r["prog"])
